@@ -32,7 +32,10 @@ class RegBench:
             elif not fw.exn_refines(ml, il):
                 chk.diverge("Model.verify_reg", f"{label}/{form}: model {ml[:90]} impl {il[:90]}", rp)
         if expect == "reject" and il.startswith("OK"):
-            if ml is not None and ml.startswith("OK") and chk.proofs_ok and known is None and not getattr(chk, "strict_catalogue", False):
+            # combinations of two catalogue entries can cancel each other (e.g. "credential exponent 3" + "pubArea exponent 3"): for them the proven
+            # model decides whether the combination is a deviation at all, whatever the strictness for single entries
+            strict = getattr(chk, "strict_catalogue", False) and "+" not in label.split("/")[0]
+            if ml is not None and ml.startswith("OK") and chk.proofs_ok and known is None and not strict:
                 chk.notes.append({"catalogue-inconsistency": label, "form": form})
                 print(f"[{chk.pid}] WARNING catalogue entry {label} is accepted by the proven model: not a deviation")
             else:
